@@ -4,6 +4,7 @@ import (
 	"time"
 
 	"github.com/alicebob/miniredis/v2"
+	"github.com/redis/go-redis/v9"
 
 	configv1 "github.com/istio-ecosystem/authservice/config/gen/go/v1"
 	oidcv1 "github.com/istio-ecosystem/authservice/config/gen/go/v1/oidc"
@@ -31,14 +32,16 @@ func VerifC18_TimeoutsPerFilter() {
 		return c
 	}
 	var uriA, uriB string
-	switch vn.Choice("backing", 3) {
+	switch vn.Choice("backing", 4) {
 	case 0: // both in memory
 		vn.Tag("shared-memory-store")
 	case 1: // same Redis
 		uriA, uriB = kitRedisURI("r1"), kitRedisURI("r1")
 		vn.Tag("shared-redis-uri")
-	default: // different Redis servers
+	case 2: // different Redis servers
 		uriA, uriB = kitRedisURI("r1"), kitRedisURI("r2")
+	default: // one Redis server, separate databases
+		uriA, uriB = kitRedisURI("r1")+"/0", kitRedisURI("r1")+"/1"
 	}
 	a, b := mk("a", uriA), mk("b", uriB)
 	cfg := &configv1.Config{Chains: []*configv1.FilterChain{
@@ -56,6 +59,24 @@ func VerifC18_TimeoutsPerFilter() {
 			return x.absoluteSessionTimeout, x.idleSessionTimeout
 		}
 		return -1, -1
+	}
+	// a Redis-backed filter's store talks to the server / database / credentials of its own URI
+	for _, oc := range []*oidcv1.OIDCConfig{a, b} {
+		uri := oc.GetRedisSessionStoreConfig().GetServerUri()
+		if uri == "" {
+			continue
+		}
+		rs, isRedis := f.Get(oc).(*redisStore)
+		vn.Assert("C18/redis-filter-gets-a-redis-store", isRedis)
+		if !isRedis {
+			continue
+		}
+		want, perr := redis.ParseURL(uri)
+		cl, isClient := rs.client.(*redis.Client)
+		if perr == nil && isClient {
+			got := cl.Options()
+			vn.Assert("C18/redis-store-uses-the-filter's-own-server-and-database", vn.And(got.Addr == want.Addr, got.DB == want.DB, got.Username == want.Username, got.Password == want.Password))
+		}
 	}
 	absA, idleA := timeouts(f.Get(a))
 	absB, idleB := timeouts(f.Get(b))
